@@ -76,6 +76,7 @@ class PoolWorld(object):
         self.checks = [0]
         self.phase = ['run']
         self.hold_handshake = [False]
+        self.fail_when_ready = [None]
         self.hold_init_of = [None]      # address of a node whose pool-init connections are stuck in their set-up
         self.held_handshakes = []
         self.direct_events = []
@@ -144,6 +145,12 @@ class PoolWorld(object):
             r = node.default_reaction(cstate, req)
             self.held_handshakes.append((cstate, req, r))
             return ('silence',)
+        if req['op'] == 'STARTUP' and self.fail_when_ready[0] is not None and cstate.conn.sim_creator == 'pool-replace':
+            # the node finishes the replacement's handshake and drops the connection being replaced in the same breath
+            victim, reset = self.fail_when_ready[0]
+            self.fail_when_ready[0] = None
+            if not victim.is_closed:
+                self.net.server_close(victim, reset=reset)
         return self.plan.behaviour(node, cstate, req)
 
     def release_handshakes(self):
